@@ -1,6 +1,6 @@
 import sys, os, argparse, importlib, traceback
 sys.path.insert(0, os.path.dirname(os.path.dirname(os.path.abspath(__file__))))
-DRIVERS = {'C01': ('props.gensweep', 'C01'), 'C02': ('props.gensweep', 'C02'), 'C09': ('props.gensweep', 'C09'), 'C10': ('props.gensweep', 'C10'), 'C12': ('props.c12', None), 'C18': ('props.c18', None), 'C04': ('props.c04', None), 'C17': ('props.c17', None), 'C14': ('props.c14', None), 'C06': ('props.c06', None), 'C03': ('props.c03', None), 'C08': ('props.c08', None), 'C15': ('props.c15', None), 'C16': ('props.c16', None), 'C11': ('props.c11', None), 'C05': ('props.c05', None)}
+DRIVERS = {'C01': ('props.gensweep', 'C01'), 'C02': ('props.gensweep', 'C02'), 'C09': ('props.gensweep', 'C09'), 'C10': ('props.gensweep', 'C10'), 'C12': ('props.c12', None), 'C18': ('props.c18', None), 'C04': ('props.c04', None), 'C17': ('props.c17', None), 'C14': ('props.c14', None), 'C06': ('props.c06', None), 'C03': ('props.c03', None), 'C08': ('props.c08', None), 'C15': ('props.c15', None), 'C16': ('props.c16', None), 'C11': ('props.c11', None), 'C05': ('props.c05', None), 'C13': ('props.c13', None), 'C19': ('props.c19', None), 'C20': ('props.c20', None)}
 def main():
     ap = argparse.ArgumentParser(); ap.add_argument('prop'); ap.add_argument('--tier', default=os.environ.get('VERIF_TIER', 'quick'))
     a = ap.parse_args()
